@@ -491,7 +491,13 @@ class Builder:
                 # a max_volume that is not a short binary fraction (950.3): its neighbours in single and half precision
                 import numpy as _np
                 cands += [F(float(_np.float32(float(M)))), F(float(_np.float16(float(M)))), F(float(_np.float32(float(M)))), F(float(_np.float16(float(M))))]
-            if self.reconfigured and self.vol_memory and rng.random() < self.profile.get("p_reuse_after_reconfigure", 0.0):
+            if F(M).denominator > 2**20 and rng.random() < self.profile.get("p_dtype_neighbour", 0.0):
+                # exactly the single / half precision neighbour of a max_volume that is not a short binary fraction
+                import numpy as _np
+                v = F(float(rng.choice([_np.float32, _np.float16])(float(M))))
+                if v > room:
+                    v = grid(rng, 0, room)
+            elif self.reconfigured and self.vol_memory and rng.random() < self.profile.get("p_reuse_after_reconfigure", 0.0):
                 # the very volumes transferred before the worklist was reconfigured
                 v = rng.choice(self.vol_memory)
                 if v > room:
